@@ -1,5 +1,6 @@
 """C13 - spatial_grid.Index.nearest(). Specs: GridOps (NearestOK; impl-shaped adjacents/scan), Grid (build + removals), GridTrace."""
 import itertools
+import operator
 import os
 import random
 
@@ -30,9 +31,13 @@ def run_history(sg, paths, n, rev, ops, a=1, b=0):
                 r = idx.nearest([f(op[1]), f(op[2])])
                 if r is None:
                     r = -1
-                elif isinstance(r, bool) or not isinstance(r, int):
-                    ev["status"] = "nearest returned %r" % (r,)
-                    r = -2
+                else:
+                    try:
+                        r = -2 if isinstance(r, bool) else operator.index(r)        # any integer type (numpy ints included) is an identifier
+                    except TypeError:
+                        r = -2
+                    if r == -2:
+                        ev["status"] = "nearest returned a non-identifier"
                 ev["ops"].append(["q", op[1], op[2], r])
             else:
                 idx.remove_path(op[1])
